@@ -44,6 +44,9 @@ pub struct GenCfg {
     pub long_literals_pct: u32,
     /// percent chance (per shape draw) of keyword-exclusion alternatives: `!k ~ x | !w ~ y | !k ~ z`
     pub negpred_pct: u32,
+    /// percent chance (per shape draw) of a scan-until shape `(!(n1 | .. | nk) ~ ANY)*` with 3..7 stop strings,
+    /// some of which contain, extend or repeat others
+    pub skipper_pct: u32,
 }
 
 impl GenCfg {
@@ -64,6 +67,7 @@ impl GenCfg {
             big_choices_pct: 0,
             negpred_pct: 0,
             long_literals_pct: 0,
+            skipper_pct: 0,
         }
     }
 }
@@ -102,7 +106,7 @@ enum Need {
     Consume,
 }
 
-pub const LITS: &[&str] = &["a", "b", "c", "ab", "ba", "aa", "abc", "é", " ", "\n", "x", "bX", "A", "aB", "€", "-", "a", "b", "ab", "É", "kΩ", "🎈", "\r", "Ａb", "\u{feff}"];
+pub const LITS: &[&str] = &["a", "b", "c", "ab", "ba", "aa", "abc", "é", " ", "\n", "x", "bX", "A", "aB", "€", "-", "a", "b", "ab", "É", "kΩ", "🎈", "\r", "Ａb", "\u{feff}", "\r\n", "a\r\nb"];
 pub const BUILTIN_CHARS: &[&str] = &[
     "ANY",
     "ANY",
@@ -649,6 +653,34 @@ impl<'a> G<'a> {
             let _ = need;
             return Some(ch);
         }
+        if self.cfg.skipper_pct > 0 && need == Need::Free && self.rng.chance(self.cfg.skipper_pct, 100) {
+            let n = 3 + self.rng.below(5);
+            let mut needles: Vec<String> = vec![];
+            for _ in 0..n {
+                let s = if !needles.is_empty() && self.rng.chance(1, 2) {
+                    // derived from an earlier stop string: it then contains that one
+                    let base = self.rng.pick(&needles).clone();
+                    match self.rng.below(4) {
+                        0 => format!("{}{}", self.lit_nonempty(), base),
+                        1 => format!("{}{}", base, self.lit_nonempty()),
+                        2 => format!("{}{}{}", self.lit_nonempty(), base, self.lit_nonempty()),
+                        _ => base,
+                    }
+                } else {
+                    self.lit_nonempty()
+                };
+                needles.push(s);
+            }
+            let mut it = needles.into_iter().map(Expr::Str);
+            let mut ch = it.next().unwrap();
+            for nx in it {
+                ch = Expr::Choice(Box::new(ch), Box::new(nx));
+            }
+            if self.rng.chance(1, 5) && self.needle_rule.is_some() && self.needle_rule != Some(self.cur) && !(lm && self.needle_rule.unwrap() <= self.cur) {
+                ch = Expr::Choice(Box::new(Expr::Ident(self.names[self.needle_rule.unwrap()].clone())), Box::new(ch));
+            }
+            return Some(Expr::Rep(Box::new(Expr::Seq(Box::new(Expr::NegPred(Box::new(ch))), Box::new(Expr::Ident("ANY".into()))))));
+        }
         let k = self.rng.below(9);
         match k {
             8 => {
@@ -669,7 +701,7 @@ impl<'a> G<'a> {
                 if need != Need::Free {
                     return None;
                 }
-                let nn = 1 + self.rng.below(4);
+                let nn = if self.rng.chance(1, 6) { 5 + self.rng.below(3) } else { 1 + self.rng.below(4) };
                 let mut needles: Vec<Expr> = vec![];
                 for _ in 0..nn {
                     if self.rng.chance(1, 6) && self.needle_rule.is_some() && self.needle_rule != Some(self.cur) && !(lm && self.needle_rule.unwrap() <= self.cur) {
